@@ -1,9 +1,9 @@
 CONSTANTS Vocab <- VocabC
-          MaxAdds = 3
-          MaxCrashes = 1
+          MaxAdds = 2
+          MaxCrashes = 0
           AtomicSave = FALSE
           InitDisks <- InitDisksC
-          AppendOnly = FALSE
+          AppendOnly = TRUE
 INIT DFInit
 NEXT DFNext
 INVARIANTS NeverLosesExceptKnown
